@@ -21,7 +21,7 @@ global size_of usize == 8;
 //@include prelude/blanket_std.rs
 //@include prelude/c13left_std.rs
 //@include prelude/wm_more_std.rs
-//@include prelude/map_ctor_std.rs
+//@import units/inc/map_arcs.inc.rs
 
 //@import units/inc/map_core.inc.rs
 //@import units/inc/map_ctor_core.inc.rs
